@@ -216,6 +216,13 @@ def run(ctx):
     if bad["ok"]:
         raise tlc.MachineryError("deviation IndexOrder=first did not violate AfterCrashClassified")
     ctx.notes["switch_index_first_violates"] = bad["invariant_violated"]
+    # the sharded writer with stores that fail half-way, then close(): a close that
+    # returns normally has written every accepted chunk (ShardWriterFaults.tla)
+    ctx.mc("MC_ShardWriterFaults", ctx.pick("MC_ShardWriterFaults_quick", "MC_ShardWriterFaults"), workers=8)
+    bad = tlc.model_check("MC_ShardWriterFaults", "MC_ShardWriterFaults_none", workers=4)
+    if bad["ok"] or "NoSilentLoss" not in bad["invariant_violated"]:
+        raise tlc.MachineryError("deviation Sticky=none did not violate NoSilentLoss")
+    ctx.notes["switch_sticky_none_violates"] = bad["invariant_violated"]
 
     work = ctx.scratch("verif_c18_")
     runs = []
